@@ -34,8 +34,8 @@ Print Assumptions C01_level.
 
 (* ---- Z-segments: every name Z??, every number of fields, repetitions, components, subcomponents ---- *)
 
-(* the leaf condition: the ST leaf encoder (escape) returns the text unchanged *)
-Definition st_fixed (v : str) (e : ec) (s : str) : Prop := leaf_enc v TOLERANT e (Some (unbs "ST")) s = Ok s.
+(* the leaf condition st_fixed v e s (Proofs/RoundTripTables.v): the ST leaf encoder (escape) returns
+   the text unchanged, leaf_enc v TOLERANT e (Some "ST") s = Ok s *)
 
 Theorem C01_segment_Z : forall v t, tables_of v = Some t ->
   forall e, ec_ok e ->
@@ -95,14 +95,6 @@ Print Assumptions C01_valid_ec.
 
 (* ---- the hypotheses are satisfiable on non-trivial data ---- *)
 
-Definition st_fixedb (v : str) (e : ec) (s : str) : bool :=
-  match leaf_enc v TOLERANT e (Some (unbs "ST")) s with Ok r => streqb r s | Err _ => false end.
-Lemma st_fixedb_sound v e s : st_fixedb v e s = true -> st_fixed v e s.
-Proof.
-  unfold st_fixedb, st_fixed. destruct (leaf_enc _ _ _ _ s) as [r|]; [|discriminate].
-  intros H. now rewrite (streqb_eq _ _ H).
-Qed.
-
 Example C01_ec_ok_default : ec_ok default_ec /\ ec_ok default_ec_27.
 Proof. split; apply (ec_valid_ok esc_family_0); vm_compute; reflexivity. Qed.
 
@@ -150,7 +142,7 @@ Theorem C01_segment_text : forall v t, tables_of v = Some t ->
 Proof.
   intros v t Ht e He sn r Hin Ha Hm.
   destruct (shipped_table_facts v t Ht) as [Hst [Hvar _]].
-  destruct (shipped_segment_ok v t sn r Ht Hin Ha Hm) as [Hl [srows [-> [H3 [Hup [Hmsh [Hz [Hc Hrows]]]]]]]].
+  destruct (shipped_segment_ok v t sn r Ht Hin Ha Hm) as [Hl [srows [-> [H3 [Hup [Hmsh [Hz [Hc [Hrows Hnof]]]]]]]]].
   exists srows. split; [reflexivity|]. intros fs Hn Hlen Hf text.
   destruct (seg_table_roundtrip t e (leaf_enc v TOLERANT e) He Hst Hvar sn srows fs H3 Hup Hmsh Hz Hl Hc Hrows Hn Hlen Hf)
     as [s [gs [Hp [_ [_ Henc]]]]].
@@ -201,7 +193,7 @@ Theorem C01_segment : forall v t, tables_of v = Some t ->
 Proof.
   intros v t Ht e He sn r Hin Ha Hm.
   destruct (shipped_table_facts v t Ht) as [Hst [Hvar _]].
-  destruct (shipped_segment_ok v t sn r Ht Hin Ha Hm) as [Hl [srows [-> [H3 [Hup [Hmsh [Hz [Hc Hrows]]]]]]]].
+  destruct (shipped_segment_ok v t sn r Ht Hin Ha Hm) as [Hl [srows [-> [H3 [Hup [Hmsh [Hz [Hc [Hrows Hnof]]]]]]]]].
   exists srows. split; [reflexivity|]. intros vt Hcan Hlen Hw text.
   exact (seg_table_roundtrip_vt t e (leaf_enc v TOLERANT e) He Hst Hvar sn srows vt H3 Hup Hmsh Hz Hl Hc Hrows Hcan Hlen Hw).
 Qed.
@@ -223,7 +215,7 @@ Theorem C01_field : forall v t, tables_of v = Some t ->
 Proof.
   intros v t Ht e He sn r Hin Ha Hm.
   destruct (shipped_table_facts v t Ht) as [Hst [Hvar _]].
-  destruct (shipped_segment_ok v t sn r Ht Hin Ha Hm) as [Hl [srows [-> [H3 [Hup [Hmsh [Hz [Hc Hrows]]]]]]]].
+  destruct (shipped_segment_ok v t sn r Ht Hin Ha Hm) as [Hl [srows [-> [H3 [Hup [Hmsh [Hz [Hc [Hrows Hnof]]]]]]]]].
   exists srows. split; [reflexivity|]. intros i row fr fv text Hi Hn Hr Hok.
   destruct (field_roundtrip t e (leaf_enc v TOLERANT e) Hst Hvar sn srows i row fr fv text H3 Hup Hmsh Hc Hrows Hi Hn Hr Hok)
     as [x [Hp [_ Henc]]].
@@ -250,7 +242,7 @@ Theorem C01_component : forall v t, tables_of v = Some t ->
 Proof.
   intros v t Ht e He sn r Hin Ha Hm.
   destruct (shipped_table_facts v t Ht) as [Hst [Hvar _]].
-  destruct (shipped_segment_ok v t sn r Ht Hin Ha Hm) as [Hl [srows [-> [H3 [Hup [Hmsh [Hz [Hc Hrows]]]]]]]].
+  destruct (shipped_segment_ok v t sn r Ht Hin Ha Hm) as [Hl [srows [-> [H3 [Hup [Hmsh [Hz [Hc [Hrows Hnof]]]]]]]]].
   exists srows. split; [reflexivity|]. intros row inf D rows j crow text Hrow Hr Hdt HlD Hj Hn Hok.
   destruct (Hrows row Hrow) as [fr [Hr' HK]]. rewrite Hr in Hr'. injection Hr' as <-.
   destruct HK as [D' [rows' [Hdt' [HlD' Hg]]]]. rewrite Hdt in Hdt'. injection Hdt' as <-.
